@@ -1,8 +1,8 @@
 (* The additional premises of the BIP340 theorems ([lift_facts], [cofactor_one]) PROVED by kernel computation for
-   the small curves y^2 = x^3 + 7 over F_43, F_79, F_67, and a toy 32-byte "hash" for the non-vacuity examples. *)
+   the small curve y^2 = x^3 + 7 over F_43 (F_79, F_67: Proofs/SchnorrSmallBig.v), and a toy 32-byte "hash" for the non-vacuity examples. *)
 From Coq Require Import ZArith List Bool Lia.
 Require Import Bits.Lib.Result Bits.Lib.Bytes Bits.Model.Ecmath Bits.Proofs.Ecmath Bits.Proofs.Ecdsa.
-Require Import Bits.Proofs.SmallCurves Bits.Proofs.SmallCurvesBig Bits.Proofs.Schnorr Bits.Proofs.SchnorrSign.
+Require Import Bits.Proofs.SmallCurves Bits.Proofs.Schnorr Bits.Proofs.SchnorrSign.
 Import ListNotations.
 Local Open Scope Z_scope.
 
@@ -33,11 +33,7 @@ Proof.
 Qed.
 
 Theorem lift_43 : lift_facts 43. Proof. apply check_lift_sound. vm_compute. reflexivity. Qed.
-Theorem lift_79 : lift_facts 79. Proof. apply check_lift_sound. vm_compute. reflexivity. Qed.
-Theorem lift_67 : lift_facts 67. Proof. apply check_lift_sound. vm_compute. reflexivity. Qed.
 Theorem cofactor_43 : cofactor_one 43 0 7 31. Proof. apply check_cofactor_sound. vm_compute. reflexivity. Qed.
-Theorem cofactor_79 : cofactor_one 79 0 7 67. Proof. apply check_cofactor_sound. vm_compute. reflexivity. Qed.
-Theorem cofactor_67 : cofactor_one 67 0 7 79. Proof. apply check_cofactor_sound. vm_compute. reflexivity. Qed.
 
 (* a toy stand-in for SHA-256 with 32-byte output (the theorems hold for EVERY such function) *)
 Definition toy_hash (m : bytes) : bytes :=
